@@ -1,4 +1,3 @@
-<<<<<<< HEAD
 import PdfModel.Spec.Widths
 
 /-! Helper lemmas for C19 (widths): `get_set` over the five growth cases, runs, ranges, the interpreter. -/
@@ -222,135 +221,3 @@ theorem interp_spec (cx : α) : ∀ (gs : List (Group α)) (w : Widths α), (∀
           simp [hin, this]
 
 end Widths
-=======
-import PdfModel.Lemmas.SaveShape
-
-/-! `byte_len`, big-endian fields and the `/W` widths of the cross-reference stream. -/
-
-namespace Storage
-open Xref
-
-/-- `n` fits into `byteLen n` bytes -/
-theorem lt_pow_byteLen : ∀ n : Nat, n < 256 ^ byteLen n := by
-  intro n
-  induction n using Nat.strongRecOn with
-  | ind n ih =>
-    rw [byteLen]
-    split
-    · rename_i h; simpa using h
-    · rename_i h
-      have h1 : n / 256 < n := Nat.div_lt_self (by omega) (by omega)
-      have h2 := ih (n / 256) h1
-      have h3 : 256 ^ (1 + byteLen (n / 256)) = 256 ^ byteLen (n / 256) * 256 := by
-        rw [Nat.add_comm, Nat.pow_succ]
-      rw [h3]
-      have h4 : n < (n / 256 + 1) * 256 := by omega
-      exact Nat.lt_of_lt_of_le h4 (Nat.mul_le_mul_right 256 h2)
-
-theorem byteLen_pos (n : Nat) : 1 ≤ byteLen n := by
-  rw [byteLen]; split <;> omega
-
-/-- and into no fewer (for `n ≥ 256`): `byteLen` is the exact number of base-256 digits -/
-theorem pow_byteLen_le (n : Nat) (h : 256 ≤ n) : 256 ^ (byteLen n - 1) ≤ n := by
-  induction n using Nat.strongRecOn with
-  | ind n ih =>
-    rw [byteLen]
-    rw [if_neg (by omega)]
-    simp only [Nat.add_sub_cancel_left]
-    by_cases h2 : 256 ≤ n / 256
-    · have h1 : n / 256 < n := Nat.div_lt_self (by omega) (by omega)
-      have := ih (n / 256) h1 h2
-      have hb := byteLen_pos (n / 256)
-      have h3 : 256 ^ byteLen (n / 256) = 256 ^ (byteLen (n / 256) - 1) * 256 := by
-        rw [← Nat.pow_succ]; congr 1; omega
-      rw [h3]
-      calc 256 ^ (byteLen (n / 256) - 1) * 256 ≤ (n / 256) * 256 := Nat.mul_le_mul_right 256 this
-        _ ≤ n := by omega
-    · have : byteLen (n / 256) = 1 := by rw [byteLen]; rw [if_pos (by omega)]
-      rw [this]; simpa using h
-
-def decodeBE (l : List Nat) : Nat := l.foldl (fun acc b => acc * 256 + b) 0
-
-theorem beBytes_length : ∀ (w n : Nat), (beBytes w n).length = w := by
-  intro w
-  induction w with
-  | zero => intro n; rfl
-  | succ w ih => intro n; simp [beBytes, ih]
-
-theorem beBytes_lt : ∀ (w n : Nat), ∀ b ∈ beBytes w n, b < 256 := by
-  intro w
-  induction w with
-  | zero => intro n b hb; simp [beBytes] at hb
-  | succ w ih =>
-    intro n b hb
-    simp only [beBytes, List.mem_append, List.mem_singleton] at hb
-    rcases hb with hb | rfl
-    · exact ih _ b hb
-    · omega
-
-/-- a field written with enough bytes is read back as it was -/
-theorem decode_beBytes : ∀ (w n : Nat), n < 256 ^ w → decodeBE (beBytes w n) = n := by
-  intro w
-  induction w with
-  | zero => intro n h; simp at h; subst h; rfl
-  | succ w ih =>
-    intro n h
-    have h1 : n / 256 < 256 ^ w := by
-      rw [Nat.pow_succ] at h
-      exact Nat.div_lt_of_lt_mul (by rw [Nat.mul_comm]; exact h)
-    simp only [beBytes, decodeBE, List.foldl_append, List.foldl_cons, List.foldl_nil]
-    have := ih (n / 256) h1
-    simp only [decodeBE] at this
-    rw [this]; omega
-
-theorem maxFields_ge : ∀ (t : List XRef) (e : XRef) (ty a b : Nat), e ∈ t → e ≠ .promised →
-    fieldsOf e = some (ty, a, b) → a ≤ (maxFields t).1 ∧ b ≤ (maxFields t).2 := by
-  intro t
-  induction t with
-  | nil => intro e ty a b he; cases he
-  | cons x xs ih =>
-    intro e ty a b he hne hf
-    simp only [List.mem_cons] at he
-    simp only [maxFields]
-    rcases he with rfl | he
-    · cases e <;> simp_all [fieldsOf] <;> omega
-    · have := ih e ty a b he hne hf
-      cases x <;> simp [fieldsOf] <;> omega
-
-theorem fieldsOf_rowOf (e r : XRef) (h : rowOf e = some r) : fieldsOf r = fieldsOf e := by
-  cases e <;> simp [rowOf] at h <;> subst h <;> rfl
-
-variable {V : Type}
-
-/-- **/W**: every field of every row written fits the width announced for its column, so the bytes of
-    the row decode to the row -/
-theorem width_fits (P : Params V) (L : Layout) (hL : L.Pos) (d0 d d' : Doc V) (chain0) (i : SaveInfo)
-    (hb : BaseOK d0 chain0) (hi : Inv d0 d) (h : save P L d = (d', .ok i)) :
-    1 ≤ i.aw ∧ 1 ≤ i.bw ∧
-    ∀ r ∈ i.rows, ∀ ty a b, fieldsOf r = some (ty, a, b) →
-      a < 256 ^ i.aw ∧ b < 256 ^ i.bw ∧
-      rowBytes i.aw i.bw r = ty :: (beBytes i.aw a ++ beBytes i.bw b) ∧
-      decodeBE (beBytes i.aw a) = a ∧ decodeBE (beBytes i.bw b) = b := by
-  have sh := save_shape P L hL d0 d d' chain0 i hb hi h
-  have hw := save_ok_widths P L d d' i h
-  simp only [widths] at hw
-  have haw : i.aw = byteLen (maxFields d'.st.refs).1 := by
-    have := congrArg Prod.fst hw; simpa using this
-  have hbw : i.bw = byteLen (maxFields d'.st.refs).2 := by
-    have := congrArg Prod.snd hw; simpa using this
-  refine ⟨by rw [haw]; exact byteLen_pos _, by rw [hbw]; exact byteLen_pos _, ?_⟩
-  intro r hr ty a b hf
-  obtain ⟨j, hj⟩ := List.getElem?_of_mem hr
-  have hjl : j < i.rows.length := (List.getElem?_eq_some_iff.mp hj).1
-  have hjt : j < d'.st.refs.length := by rw [sh.table_len]; have := sh.rows_len.1; omega
-  obtain ⟨r', a1, a2⟩ := sh.rows_of_table j d'.st.refs[j] (by simp [hjt])
-  rw [hj] at a2; simp only [Option.some.injEq] at a2; subst a2
-  have hne : d'.st.refs[j] ≠ .promised := by intro hp; rw [hp] at a1; simp [rowOf] at a1
-  have hf2 : fieldsOf d'.st.refs[j] = some (ty, a, b) := by rw [← fieldsOf_rowOf _ _ a1]; exact hf
-  obtain ⟨m1, m2⟩ := maxFields_ge d'.st.refs _ ty a b (List.getElem_mem hjt) hne hf2
-  have ha : a < 256 ^ i.aw := by rw [haw]; exact Nat.lt_of_le_of_lt m1 (lt_pow_byteLen _)
-  have hb' : b < 256 ^ i.bw := by rw [hbw]; exact Nat.lt_of_le_of_lt m2 (lt_pow_byteLen _)
-  exact ⟨ha, hb', by simp [rowBytes, hf], decode_beBytes _ _ ha, decode_beBytes _ _ hb'⟩
-
-end Storage
->>>>>>> af1d5d32a127cec771d4611991645014a75588e0
